@@ -8,18 +8,59 @@ From CFDP.proofs Require Import DestCancelInvProofs.
 From RecordUpdate Require Import RecordSet.
 Import RecordSetNotations.
 
+(* the steps a cancelled transaction can be in: every cancellation moves the step to the completion, or (EOF (cancel)
+   in acknowledged mode) to the EOF ACK, from where the completion is the only way on; after the completion the
+   Finished PDU is sent and its ACK awaited.  Without this condition the statement is false
+   (DestCancelInvProofs.CounterExamples.step_needed: "cancelled" with the step still at receiving file data writes). *)
+Definition dest_cancel_step (st : Z) : Prop :=
+  st = DS_TRANSFER_COMPLETION \/ st = DS_SENDING_EOF_ACK \/ st = DS_SENDING_FINISHED \/ st = DS_WAITING_FOR_FINISHED_ACK.
 Definition dest_cancelled (s : dst) : Prop :=
-  d_state s = ST_BUSY /\ p_disp (d_p s) = DISP_CANCELED.
+  d_state s = ST_BUSY /\ p_disp (d_p s) = DISP_CANCELED /\ dest_cancel_step (d_step s).
+(* the cancelled completion (Transaction-Finished, file disposal) has been performed *)
+Definition dest_completion_done (s : dst) : Prop :=
+  d_step s = DS_SENDING_FINISHED \/ d_step s = DS_WAITING_FOR_FINISHED_ACK.
 
 (* the filestore after the call is the one before, or the one before with the destination file deleted *)
 Definition fs_kept_or_deleted (s s' : dst) : Prop :=
   fs_d s' = fs_d s \/ fs_d s' = fst (fs_delete_file (fs_d s) (p_file_name (d_p s))).
 
+(* the invariant: every API call made in a cancelled state.
+   state_machine: the filestore is kept or the destination file deleted; the handler is idle afterwards or still
+   cancelled with the same destination file name; a call that changes the filestore is the one that performs the
+   completion (it ends idle or past the completion); past the completion nothing is deleted any more and the
+   step never returns before it.
+   get_next_packet: nothing but the queue changes.
+   cancel_request: the filestore is kept, the transaction stays cancelled (a request that is accepted again re-arms
+   the completion: see CounterExamples.cancel_request_after_completion_reports_twice). *)
 Theorem c12_dest_no_write_after_cancel : forall (s : dst) (pkt : option pdu) (a b : Z),
   dest_cancelled s ->
   (let s' := fst (Dest.state_machine pkt s) in
-   fs_kept_or_deleted s s' /\ (d_state s' = ST_IDLE \/ dest_cancelled s')) /\
-  (let s' := fst (Dest.get_next_packet s) in fs_d s' = fs_d s /\ dest_cancelled s') /\
-  (let s' := fst (Dest.cancel_request a b s) in fs_d s' = fs_d s /\ dest_cancelled s').
+   fs_kept_or_deleted s s' /\
+   (d_state s' = ST_IDLE \/ (dest_cancelled s' /\ p_file_name (d_p s') = p_file_name (d_p s))) /\
+   (fs_d s' = fs_d s \/ d_state s' = ST_IDLE \/ dest_completion_done s') /\
+   (dest_completion_done s -> fs_d s' = fs_d s /\ (d_state s' = ST_IDLE \/ dest_completion_done s'))) /\
+  (let s' := fst (Dest.get_next_packet s) in
+   fs_d s' = fs_d s /\ dest_cancelled s' /\ d_step s' = d_step s /\ d_p s' = d_p s) /\
+  (let s' := fst (Dest.cancel_request a b s) in
+   fs_d s' = fs_d s /\ dest_cancelled s' /\ p_file_name (d_p s') = p_file_name (d_p s)).
 Proof. exact dest_no_write_after_cancel. Qed.
 Print Assumptions c12_dest_no_write_after_cancel.
+
+(* each of the three ways to cancel establishes the invariant: (i) an accepted cancel request, (ii) a declared fault
+   whose handler is the notice of cancellation, (iii) an EOF PDU with a condition other than No Error.  (ii) and (iii)
+   happen inside a state machine call that may have written the File Data PDU it was given before the fault was
+   declared (CounterExamples.write_then_cancel_in_one_call): the invariant speaks about the calls that follow.
+   (iii) needs a transmission mode that exists (CounterExamples.mode_needed). *)
+Theorem c12_dest_cancel_establishes :
+  (forall a b s s', d_state s = ST_BUSY -> Dest.cancel_request a b s = (s', Ok true) ->
+     dest_cancelled s' /\ d_step s' = DS_TRANSFER_COMPLETION /\ fs_d s' = fs_d s) /\
+  (forall cond s s', d_state s = ST_BUSY -> declare_fault cond s = (s', Ok FH_CANCEL) ->
+     dest_cancelled s' /\ d_step s' = DS_TRANSFER_COMPLETION /\ fs_d s' = fs_d s) /\
+  (forall c ck sz s s', d_state s = ST_BUSY -> c <> C_NO_ERROR ->
+     h_mode (p_conf (d_p s)) = ACKED \/ h_mode (p_conf (d_p s)) = UNACKED ->
+     handle_eof_pdu c ck sz s = (s', Ok tt) ->
+     dest_cancelled s' /\ fs_d s' = fs_d s /\
+     (h_mode (p_conf (d_p s)) = UNACKED -> d_step s' = DS_TRANSFER_COMPLETION) /\
+     (h_mode (p_conf (d_p s)) = ACKED -> d_step s' = DS_SENDING_EOF_ACK)).
+Proof. exact dest_cancel_establishes. Qed.
+Print Assumptions c12_dest_cancel_establishes.
